@@ -13,11 +13,15 @@
                                                                   headers, verif snapshot, key collection before sort)
      "exists"  is there an entry satisfying a predicate          (idle worker?, cycle search start node)
      "effect"  perform an idempotent effect per entry            (kill every child on shutdown)
+     "collectsort"  collect the keys in iteration order, then STABLE-SORT them by a total order on keys and
+                    build an insertion-ordered dictionary in that order          (request headers / query parameters)
    Named deviations (NOT allowed in the code; kept to show that the model detects them):
      "firstfail"  stop at the first entry whose check is not "ok" and report THAT entry
                   (dictionary comparison returning inside the first pass; import of colliding names;
                    evaluation of several input expressions)
      "ordered"    append every entry to an insertion-ordered dictionary  (request headers / query)
+     "collectsortfold"  as collectsort, but the sort compares a NON-INJECTIVE image of the keys (e.g. their
+                  lower-case form): keys with the same image keep the order the map iteration produced
    Module ZnDictEq enumerates pairs of small dictionaries and emits their contents-only equality:
    the replay vectors for 为 / 不为 / == / 包含 / 寻找 under repeated execution. *)
 EXTENDS Integers, Sequences, FiniteSets, TLC, Json
@@ -36,7 +40,7 @@ SITES == <<
   [site |-> "pkg/exec/eval.go:evalImportStmt:library.GetAllExportValues()#d5e3dd7b", kind |-> "build"],
   [site |-> "pkg/exec/eval.go:evalImportStmt:exportValues#59f3bb24", kind |-> "build"],
   [site |-> "pkg/exec/exec_varinput.go:ExecExpressionInputText:exprStrMap#966fa845", kind |-> "build"],
-  [site |-> "pkg/server/http_handler.go:buildSortedDict:items#fd7b0a61", kind |-> "build"],
+  [site |-> "pkg/server/http_handler.go:buildSortedDict:items#fd7b0a61", kind |-> "collectsort"],
   [site |-> "pkg/server/http_handler.go:sendHTTPResponse:respHeader.(*value.HashMap).GetValue()#e38add61", kind |-> "build"],
   [site |-> "pkg/server/pm_server.go:StartMaster:zns.childs#88b0706e", kind |-> "effect"],
   [site |-> "pkg/server/pm_server.go:maintainChildState:zns.childs#c8602417", kind |-> "exists"]
@@ -55,6 +59,7 @@ InitAcc(k) == CASE k = "build" -> [set |-> {}]
                 [] k = "effect" -> [done |-> {}]
                 [] k = "firstfail" -> [res |-> "ok", at |-> ""]
                 [] k = "ordered" -> [seq |-> <<>>]
+                [] k \in {"collectsort", "collectsortfold"} -> [seq |-> <<>>]
 \* one loop pass; returns [acc, stop]
 Body(k, a, key, mark) ==
   CASE k = "build" -> [acc |-> [set |-> a.set \cup {<<key, mark>>}], stop |-> FALSE]
@@ -62,10 +67,20 @@ Body(k, a, key, mark) ==
     [] k = "effect" -> [acc |-> [done |-> a.done \cup {key}], stop |-> FALSE]
     [] k = "firstfail" -> IF mark = "ok" THEN [acc |-> a, stop |-> FALSE] ELSE [acc |-> [res |-> mark, at |-> key], stop |-> TRUE]
     [] k = "ordered" -> [acc |-> [seq |-> Append(a.seq, key)], stop |-> FALSE]
+    [] k \in {"collectsort", "collectsortfold"} -> [acc |-> [seq |-> Append(a.seq, key)], stop |-> FALSE]
 RECURSIVE Run(_, _, _, _)
 Run(k, a, mm, order) == IF order = <<>> THEN a
                         ELSE LET r == Body(k, a, order[1], mm[order[1]])
                              IN IF r.stop THEN r.acc ELSE Run(k, r.acc, mm, Tail(order))
+
+\* the sort after the loop: stable insertion sort by Rank
+Rank(k, key) == IF k = "collectsortfold" THEN (IF key = "c" THEN 2 ELSE 1)          \* "a" and "b" have the same image
+                ELSE (CASE key = "a" -> 1 [] key = "b" -> 2 [] key = "c" -> 3)
+RECURSIVE InsertBy(_, _, _), SortBy(_, _)
+InsertBy(k, s, x) == IF s = <<>> THEN <<x>>
+                     ELSE IF Rank(k, x) < Rank(k, s[1]) THEN <<x>> \o s ELSE <<s[1]>> \o InsertBy(k, Tail(s), x)
+SortBy(k, s) == IF s = <<>> THEN <<>> ELSE InsertBy(k, SortBy(k, SubSeq(s, 1, Len(s) - 1)), s[Len(s)])
+Result(k, a) == IF k \in {"collectsort", "collectsortfold"} THEN [seq |-> SortBy(k, a.seq)] ELSE a
 
 Init == /\ kind \in Kinds /\ m \in Maps
         /\ remaining = DOMAIN m /\ acc = InitAcc(kind) /\ done = FALSE
@@ -78,8 +93,8 @@ Pick(k) == /\ ~done /\ k \in remaining
            /\ UNCHANGED <<kind, m, canon>>
 Finish == ~done /\ remaining = {} /\ done' = TRUE /\ UNCHANGED <<kind, m, remaining, acc, canon>>
 Next == (\E k \in Keys : Pick(k)) \/ Finish
-Confluent == done => acc = canon
-SiteKindsModelled == \A j \in 1..Len(SITES) : SITES[j].kind \in {"build", "exists", "effect"}
+Confluent == done => Result(kind, acc) = Result(kind, canon)
+SiteKindsModelled == \A j \in 1..Len(SITES) : SITES[j].kind \in {"build", "exists", "effect", "collectsort"}
 EmitSites == PrintT(ToJson([k |-> "sites", sites |-> SITES]))
 ASSUME EmitSites
 =============================================================================
